@@ -41,12 +41,14 @@ def conditions(tier):
                        'type kinds' % NT))
             sym = [('tkind', 'int'), ('direction', 'int'), ('nullable', 'bool'), ('optional', 'bool'),
                    ('not_nullable', 'bool'), ('skip', 'bool')]
-            conds.append(ch.Cond(
-                'h_c01', 'nullability', sym,
-                pre=['0 <= tkind < %d' % NT, 'direction in (0, 2, 3, 5)' if quick else '0 <= direction <= 5'],
-                fixed=dict(ckind=ck, pos=pos), timeout=T, name='nullability[%s,%s]' % (names[ck], POS[pos]),
-                bounds='direction (6: none, in, out, out caller-/callee-allocates, inout) x nullable x optional x '
-                       'not nullable x skip on %d type kinds' % NT))
+            for dname, dpre in (('none/out/inout', 'direction in (0, 2, 5)'),
+                                ('in/out caller-/callee-allocates', 'direction in (1, 3, 4)')):
+                conds.append(ch.Cond(
+                    'h_c01', 'nullability', sym, pre=['0 <= tkind < %d' % NT, dpre],
+                    fixed=dict(ckind=ck, pos=pos), timeout=T,
+                    name='nullability[%s,%s,%s]' % (names[ck], POS[pos], dname),
+                    bounds='direction (%s) x nullable x optional x not nullable x skip on %d type kinds'
+                           % (dname, NT)))
             conds.append(ch.Cond(
                 'h_c01', 'attributes', [('tkind', 'int'), ('n_attr', 'int'), ('with_value', 'bool'), ('skip', 'bool')],
                 pre=['0 <= tkind < %d' % NT, '1 <= n_attr <= 2'], fixed=dict(ckind=ck, pos=pos), timeout=T,
